@@ -38,7 +38,7 @@ func (c *c04) NumCases(tier string) int {
 	return 360
 }
 func (c *c04) Rule() string {
-	return "one case = one PRNG history of TransactionSet calls (1-3 intents of 3 owners with distinct priorities; create / replace / tweak / delete) over a pool that exercises every constraint class (range on signed and unsigned leaves carried as strings and as typed values, length, single and double pattern, min-/max-elements, mandatory below a presence container and in list entries, leafref absolute / relative / in a leaf-list / in a list with require-instance true and false, must across sibling leaves) with values that are valid or invalid by themselves and values whose validity depends on other owners' leaves; per case a drawn subset of validator switches is disabled (every third case: none). For every transaction the verdict (accepted, or refused at conversion / by Set / by intent errors) is compared (a) with the reference validator applied to the winner-per-path merge the transaction would produce and (b) with the verdict a fresh empty datastore gives the same merge as one intent. Accepted transactions are confirmed and the history goes on from the new state, refused ones leave the state. Every fourth case is a partition case instead: 8 (thorough 14) drawn configurations, each split into 2-4 intents with drawn distinct priorities, intents of lower precedence additionally carrying shadowed valid or invalid values for leaves another intent rules, all submitted in one transaction (intents in drawn order) to an empty datastore and judged by the same two oracles. distinct = request sequence + switches; non-trivial = the history saw both verdicts and at least one transaction whose validity was decided by a leaf of an owner that was not part of it or by the removal of a shadowing value"
+	return "one case = one PRNG history of TransactionSet calls (1-3 intents of 3 owners with distinct priorities; create / replace / tweak / re-prioritise / delete, and only-intended delete of intents all of whose leaves another live intent defines too) over a pool that exercises every constraint class (range on signed and unsigned leaves carried as strings and as typed values, length, single and double pattern, min-/max-elements, mandatory below a presence container and in list entries, leafref absolute / relative / in a leaf-list / in a list with require-instance true and false, must across sibling leaves) with values that are valid or invalid by themselves and values whose validity depends on other owners' leaves; per case a drawn subset of validator switches is disabled (every third case: none). For every transaction the verdict (accepted, or refused at conversion / by Set / by intent errors) is compared (a) with the reference validator applied to the winner-per-path merge the transaction would produce and (b) with the verdict a fresh empty datastore gives the same merge as one intent. Accepted transactions are confirmed and the history goes on from the new state, refused ones leave the state. Every eighth case runs shadow-removal scenarios instead (intent A holds a valid value, intent B is accepted with a value for the same leaf that is invalid by itself, then A is deleted / only-intended deleted / drops the leaf / is re-prioritised behind B / B moves before A: the result carrying B's value must be refused). Every fourth case is a partition case instead: 8 (thorough 14) drawn configurations, each split into 2-4 intents with drawn distinct priorities, intents of lower precedence additionally carrying shadowed valid or invalid values for leaves another intent rules, all submitted in one transaction (intents in drawn order) to an empty datastore and judged by the same two oracles. distinct = request sequence + switches; non-trivial = the history saw both verdicts and at least one transaction whose validity was decided by a leaf of an owner that was not part of it or by the removal of a shadowing value"
 }
 func (c *c04) Assumptions() []string {
 	return []string{
@@ -186,6 +186,23 @@ func (c *c04) genStep(run *histRun) []stepIntent {
 		switch {
 		case cur != nil && act < 3:
 			si.Delete, si.Prio, si.Kind = true, cur.Prio, "delete"
+			// only-intended delete, where it leaves nothing unmanaged behind: every leaf of the intent is also defined by
+			// another live intent (which takes over). What unmanaged leftovers mean for validation is not said by the statement.
+			covered := true
+			for k := range cur.Expanded() {
+				other := false
+				for o2, in2 := range run.m.Live {
+					if o2 != o {
+						if _, ok := in2.Expanded()[k]; ok {
+							other = true
+						}
+					}
+				}
+				covered = covered && other
+			}
+			if covered && rng.Chance(1, 2) {
+				si.Orphan, si.Kind = true, "orphan"
+			}
 		case cur != nil && act < 5:
 			si.Prio, si.Kind, si.Vals = run.freshPrio(o, taken), "reprio", copyMap(cur.Vals)
 		case cur != nil && act < 9:
@@ -333,6 +350,10 @@ func (c *c04) RunCase(w *core.Worker, idx int, seed uint64, res *core.CaseResult
 		c.partitionCase(w, idx, rng, res, disabled, dl, val)
 		return
 	}
+	if idx%8 == 1 {
+		c.shadowCase(w, idx, rng, res, disabled, dl, val)
+		return
+	}
 	run := c.h.start(rng, res, false, false)
 	defer run.close()
 	res.Tracef("disabled validators: %v", dl)
@@ -349,6 +370,16 @@ func (c *c04) RunCase(w *core.Worker, idx int, seed uint64, res *core.CaseResult
 		step := c.genStep(run)
 		res.Tracef("step %d: %s", s, stepString(step))
 		after := applyToModel(run.m, step)
+		if len(after.Orphaned) > 0 {
+			// the other intents of the same transaction uncovered a leaf of the only-intended deleted intent: it would stay
+			// on the device unmanaged - make it a plain delete
+			for i := range step {
+				if step[i].Orphan {
+					step[i].Orphan, step[i].Kind = false, "delete"
+				}
+			}
+			after = applyToModel(run.m, step)
+		}
 		R := winnersFlat(after)
 		exp := model.Validate(R, disabled)
 		expAll := model.Validate(R, nil)
@@ -624,4 +655,119 @@ func (c *c04) partitionCase(w *core.Worker, idx int, rng *core.Rng, res *core.Ca
 	}
 	res.Hash = core.HashOf(append([]string{"partition", fmt.Sprint(dl)}, canon...)...)
 	res.NonTrivial = sawAccept && sawRefuse && sawShadowedBad
+}
+
+// shadowCase: the first sentence of the property taken literally ("including values that become active only because a
+// higher-precedence intent was removed"). Intent A (better precedence) holds a valid value of a leaf, intent B is then
+// accepted with a value for the same leaf that is invalid by itself (shadowed, so the result is valid); then A goes away in
+// one of five ways - delete, only-intended delete, dropping the leaf, re-prioritising behind B, or B moving in front of A -
+// and the result, which now carries B's value, must be refused.
+func (c *c04) shadowCase(w *core.Worker, idx int, rng *core.Rng, res *core.CaseResult, disabled map[string]bool, dl []string, val *config.Validation) {
+	reps := 6
+	if w.Tier == "thorough" {
+		reps = 10
+	}
+	var canon []string
+	sawRefuse, sawAccept := false, false
+	res.Tracef("shadow-removal mode; disabled validators: %v", dl)
+	var withBad []consLeaf
+	for _, l := range consPool {
+		if len(l.bad) > 0 && !(l.path == "/sys/mtu" || l.path == "/cons/rng-u") { // string-carried ranges are refused at conversion
+			withBad = append(withBad, l)
+		}
+	}
+	for rep := 0; rep < reps && len(res.Findings) == 0; rep++ {
+		l := withBad[rng.Intn(len(withBad))]
+		good := l.good[rng.Intn(len(l.good))]
+		bad := l.bad[rng.Intn(len(l.bad))]
+		extraA := map[string]string{l.path: good, "/sys/descr": "a"}
+		extraB := map[string]string{l.path: bad}
+		if rng.Chance(1, 2) {
+			extraB["/cons/mst/e"] = "true"
+		}
+		pa, pb := int32(10+rng.Intn(10)), int32(30+rng.Intn(10))
+		kind := []string{"delete", "orphan", "drop-leaf", "reprio-A-behind-B", "reprio-B-before-A"}[rng.Intn(5)]
+		run := c.h.start(rng, res, false, false)
+		script := [][]stepIntent{
+			{{Owner: "oa", Prio: pa, Vals: extraA, Kind: "create"}},
+			{{Owner: "ob", Prio: pb, Vals: extraB, Kind: "create"}},
+		}
+		var last []stepIntent
+		switch kind {
+		case "delete":
+			last = []stepIntent{{Owner: "oa", Prio: pa, Delete: true, Kind: "delete"}}
+		case "orphan":
+			// ob must cover every leaf of oa, or something stays unmanaged
+			script[1][0].Vals["/sys/descr"] = "b"
+			last = []stepIntent{{Owner: "oa", Prio: pa, Delete: true, Orphan: true, Kind: "orphan"}}
+		case "drop-leaf":
+			last = []stepIntent{{Owner: "oa", Prio: pa, Vals: map[string]string{"/sys/descr": "a"}, Kind: "shrink"}}
+		case "reprio-A-behind-B":
+			last = []stepIntent{{Owner: "oa", Prio: pb + 20, Vals: copyMap(extraA), Kind: "reprio"}}
+		case "reprio-B-before-A":
+			last = []stepIntent{{Owner: "ob", Prio: pa - 5, Vals: copyMap(script[1][0].Vals), Kind: "reprio"}}
+		}
+		script = append(script, last)
+		ok := true
+		for i, step := range script {
+			after := applyToModel(run.m, step)
+			R := winnersFlat(after)
+			exp := model.Validate(R, disabled)
+			dontCare := false
+			if disabled["Range"] {
+				for _, v := range model.Validate(R, nil) {
+					if v.Class == "range" {
+						dontCare = true
+					}
+				}
+			}
+			id := run.nextID()
+			out := run.set(id, step, nil, time.Minute, false)
+			v := c04VerdictOf(out)
+			canon = append(canon, stepString(step))
+			res.Tracef("scenario %d (%s) step %d: %s", rep, kind, i, stepString(step))
+			if v.broken {
+				if !out.panicked {
+					res.Inconclusive("C04/no-verdict", "%s: %s", stepString(step), v.why)
+				}
+				run.close()
+				return
+			}
+			res.Count("transactions", 1)
+			where := fmt.Sprintf("shadow-removal scenario (%s), step %d [%s] disabled=%v\n  resulting configuration: %s\n  state before: %s", kind, i, stepString(step), dl, model.SortedMap(withoutKeyLeaves(R)), run.m)
+			if v.accepted {
+				sawAccept = true
+				res.Count("accepted", 1)
+			} else {
+				sawRefuse = true
+				res.Count("refused", 1)
+				res.Count("refused:"+c04Class(v.why), 1)
+			}
+			if !dontCare {
+				switch {
+				case v.accepted && len(exp) > 0:
+					res.Violate("C04/invalid-result-accepted/"+exp[0].Class, "%s\n  accepted although the result violates %v", where, exp)
+				case !v.accepted && len(exp) == 0:
+					res.Violate("C04/valid-result-refused/"+c04Class(v.why), "%s\n  refused although the result satisfies every enforced constraint: %s", where, v.why)
+				}
+			}
+			if i == 2 {
+				res.Count("shadow_removals:"+kind, 1)
+			}
+			if !v.accepted || len(res.Findings) > 0 {
+				ok = false
+				break
+			}
+			if err := run.ds.TransactionConfirm(run.ctx, id); err != nil {
+				res.Inconclusive("C04/confirm-error", "%v", err)
+				run.close()
+				return
+			}
+			run.m = after
+		}
+		_ = ok
+		run.close()
+	}
+	res.Hash = core.HashOf(append([]string{"shadow", fmt.Sprint(dl)}, canon...)...)
+	res.NonTrivial = sawAccept && sawRefuse
 }
